@@ -9,9 +9,9 @@ PROP = dict(
          "scripted in-harness ADNL server (one listener per connection), 2..64 concurrent callers x 1..5 calls each. "
          "client.run: client timeout 2 s, per call one of: answer at once / after <= 60 ms / twice with different "
          "payloads / unknown id first / pong + short + foreign-magic + 36-byte answer first / on the other connection / "
-         "malformed TL length first / never / far too late (the last three with a caller-side 80 ms context deadline, so that "
+         "malformed TL length first / never / far too late (the last three with a caller-side 50 ms context deadline, so that "
          "machine load cannot change the result class); result classes compared with the model's prediction. "
-         "go.client.chaos: timeout 50-300 ms, delays 0..1.5x timeout, up to 3 drops in the middle of requests, 0..2 idle "
+         "go.client.chaos: timeout 40-120 ms, delays 0..1.5x timeout, up to 3 drops in the middle of requests, 0..2 idle "
          "drops, and (slow cases) 1..2 connection attempts cut during reconnect; the recorded history (begin/return per call, "
          "query seen, every packet written, drops, re-accepted handshakes) is validated by checkHistory of the compiled model. "
          "non-trivial = distinct scenario line (seed, shape, script).",
@@ -40,6 +40,10 @@ PROP = dict(
     partial=[
         "data-race freedom: NOT a theorem. Supported only by the thorough-tier op go.client.race (harness rebuilt with -race, 40 chaos + 40 "
         "deterministic scenarios, any DATA RACE report fails); the quick tier does not cover it",
+        "wall-clock oracles are judged relative to a scheduling canary (a goroutine sleeping 5 ms in a loop): tolerance 1 s + 5 x the worst "
+        "oversleep seen during the scenario, and a scenario during which the whole process was stalled is run again (max 5 times) "
+        "instead of being judged — a stall of the machine is not a defect of the client; a late call caused by the client's own locking "
+        "does not show on the canary and still fails",
         "wall-clock statements (timeout by the deadline, reconnection within a bound, 3 s ping) are runtime facts: oracles "
         "deadline-overrun (> 1 s), not-reconnected-within-15s, client-not-usable-after-drops only; the model's timeout action is "
         "enabled at any moment",
